@@ -380,3 +380,7 @@ def run(ctx):
     from vt.checks import xcli
 
     xcli.xordecode_cli_part(ctx)
+    # history freedom of the functions of their input behind this property (Pure.tla)
+    from vt.checks import xpure
+
+    xpure.pure_part(ctx, xpure.entries_for("C09"))
